@@ -53,6 +53,8 @@ def rule_even(ctx):
 
 
 def run(ctx):
+    ctx.do(F.rule_md1)
+    ctx.do(F.rule_hid1)
     ctx.do(F.rule_b1)
     ctx.do(F.rule_b2)
     ctx.do(F.rule_p1_fsa)
